@@ -16,7 +16,7 @@ RULE = ('nested knot-vector pairs (degree 0-8, repeated knots, inserted knots co
         'HB and THB, <= 5 levels), all virtual levels, all boundary faces; distinct by descriptor; non-trivial if the fine space is strictly larger')
 MIN_NONTRIVIAL = {'quick': 200, 'thorough': 4000}
 REQUIRED_COUNTERS = ['oracle:prolongation', 'oracle:knot_insertion', 'oracle:represent_fine', 'oracle:virtual_hierarchy', 'oracle:prolongate_to',
-                     'oracle:boundary_trace', 'oracle:hspline_eval', 'oracle:level_prolongators']
+                     'oracle:boundary_trace', 'oracle:boundary_space_ops', 'oracle:hspline_eval', 'oracle:level_prolongators']
 ASSUMPTIONS = ['uniform dyadic level meshes (as produced by make_knots/refine) for the hierarchical part', 'reference refinement matrices by Boehm knot insertion in floats']
 
 def cases(tier, seed):
@@ -238,7 +238,7 @@ def _hs(rec, case):
                 cur = [c_ for c_ in sorted(map(tuple, fine_hs.active_cells(lv))) if tuple(ci // 2 for ci in c_) in parents] if lv < fine_hs.numlevels else []
     else:
       for s in range(int(rng2.integers(1, 3))):
-        marks = hgen.random_marks(fine_hs, rng2, style=str(rng2.choice(['random', 'corner', 'isolated', 'multilevel', 'drill'])), max_levels=5 if hs.dim < 3 else 3)
+        marks = hgen.random_marks(fine_hs, rng2, style=str(rng2.choice(['random', 'corner', 'isolated', 'multilevel', 'drill', 'interface'])), max_levels=5 if hs.dim < 3 else 3)
         if not marks: break
         fine_hs.refine({l: set(cs) for l, cs in marks.items()}); extra.append({int(l): [list(x) for x in cs] for l, cs in marks.items()})
         hgen.poke(fine_hs, rng2)
@@ -259,20 +259,43 @@ def _hs(rec, case):
         if not hs.is_subspace_of(fine_hs): rec.violation(dict(sig0, route='is_subspace_of', oracle='a space is a subspace of its refinements'), c2, {})
     # ---- restriction to boundary faces
     if hs.dim >= 2:
-        ax = int(rng.integers(0, hs.dim)); side = int(rng.integers(0, 2))
-        sig = dict(sig0, route='HSpace.boundary')
-        ok, r = guarded(rec, c, sig, hs.boundary, (ax, side))
-        if ok:
-            bhs, mapping = r
-            ub = u[np.asarray(mapping)]
-            Rb = _fine_rep(bhs, bool(hs.truncate))
-            shpL = tuple(kk.numdofs for kk in kvsL)
-            face = np.take(fine, 0 if side == 0 else shpL[ax] - 1, axis=ax)
-            # the boundary space may have fewer levels: lift its finest representation to the finest level of the volume space
-            kb = [kk for d, kk in enumerate(kvsL) if d != ax]
-            cur = Rb @ ub
-            for j in range(bhs.numlevels - 1, L - 1):
-                kc_ = [kk for d, kk in enumerate(hs.knotvectors(j)) if d != ax]; kf_ = [kk for d, kk in enumerate(hs.knotvectors(j + 1)) if d != ax]
-                cur = _tp_refine_matrix(kc_, kf_) @ cur
-            if cur.size != face.size: rec.violation(dict(sig, oracle='boundary space size'), c, {})
-            else: rec.check_close('boundary_trace', float(np.abs(cur - face.ravel()).max()), 1e-10 * (np.abs(u).max() + 1), sig, c, {'face': [ax, side]})
+        for ax, side in [(a_, s_) for a_ in range(hs.dim) for s_ in (0, 1)]:
+            sig = dict(sig0, route='HSpace.boundary')
+            ok, r = guarded(rec, c, sig, hs.boundary, (ax, side))
+            if ok:
+                bhs, mapping = r
+                ub = u[np.asarray(mapping)]
+                Rb = _fine_rep(bhs, bool(hs.truncate))
+                shpL = tuple(kk.numdofs for kk in kvsL)
+                face = np.take(fine, 0 if side == 0 else shpL[ax] - 1, axis=ax)
+                # the boundary space may have fewer levels: lift its finest representation to the finest level of the volume space
+                kb = [kk for d, kk in enumerate(kvsL) if d != ax]
+                cur = Rb @ ub
+                for j in range(bhs.numlevels - 1, L - 1):
+                    kc_ = [kk for d, kk in enumerate(hs.knotvectors(j)) if d != ax]; kf_ = [kk for d, kk in enumerate(hs.knotvectors(j + 1)) if d != ax]
+                    cur = _tp_refine_matrix(kc_, kf_) @ cur
+                if cur.size != face.size: rec.violation(dict(sig, oracle='boundary space size'), c, {})
+                else: rec.check_close('boundary_trace', float(np.abs(cur - face.ravel()).max()), 1e-10 * (np.abs(u).max() + 1), sig, c, {'face': [ax, side]})
+                # the returned boundary space is a hierarchical space in its own right: what it computes itself (tensor-product level
+                # prolongators, finest-level representation, level-wise evaluation of the trace) must describe the same trace
+                sigb = dict(sig0, route='HSpace.boundary: operations of the boundary space')
+                for kb_ in range(bhs.numlevels - 1):
+                    okp, Pb = guarded(rec, c, dict(sigb, op='tp_prolongation'), bhs.tp_prolongation, kb_)
+                    if okp:
+                        for d_, P_ in enumerate(Pb):
+                            kvc, kvf = bhs.knotvectors(kb_)[d_], bhs.knotvectors(kb_ + 1)[d_]
+                            Rr = _refmat(kvc.kv, kvc.p, kvf.kv)
+                            if P_.shape != Rr.shape: rec.violation(dict(sigb, op='tp_prolongation', oracle='shape'), c, {'got': list(P_.shape), 'want': list(Rr.shape), 'face': [ax, side]})
+                            else: rec.check_close('boundary_space_ops', float(np.abs(P_.toarray() - Rr).max()), 1e-11, dict(sigb, op='tp_prolongation'), c, {'face': [ax, side]})
+                okr, Rbo = guarded(rec, c, dict(sigb, op='represent_fine'), bhs.represent_fine, truncate=bool(hs.truncate))
+                if okr:
+                    if Rbo.shape != Rb.shape: rec.violation(dict(sigb, op='represent_fine', oracle='shape'), c, {'face': [ax, side]})
+                    else: rec.check_close('boundary_space_ops', float(np.abs(Rbo.toarray() - Rb).max()), 1e-11, dict(sigb, op='represent_fine'), c, {'face': [ax, side]})
+                if cur.size == face.size:
+                    gb = [g_ for d, g_ in enumerate(grids) if d != ax]
+                    want_tr = tp.grid_eval(tp.kvs_of(kb), face, gb)
+                    okf, gtr = guarded(rec, c, dict(sigb, op='HSplineFunc.grid_eval'), lambda: hierarchical.HSplineFunc(bhs, ub.copy()).grid_eval(gb))
+                    if okf:
+                        gtr = np.asarray(gtr)
+                        if gtr.shape != want_tr.shape: rec.violation(dict(sigb, op='HSplineFunc.grid_eval', oracle='shape'), c, {'face': [ax, side]})
+                        else: rec.check_close('boundary_space_ops', float(np.abs(gtr - want_tr).max()), 1e-10 * (np.abs(u).max() + 1), dict(sigb, op='HSplineFunc.grid_eval'), c, {'face': [ax, side]})
